@@ -1,4 +1,4 @@
     requires layout_keys@.len() <= u32::MAX,   // documented precondition: fewer than 2^32 trusted keys (`len() as u32`)
     ensures
         r is Ok ==> r->Ok_0 == layout.metadata,                     // [C01]
-        r is Ok ==> owner_gate(*layout, layout_keys@),              // [C01]
+        r is Ok ==> owner_gate(*layout, layout_keys@),              // [C01,C08]
